@@ -329,8 +329,11 @@ ITEMS = location_types() + budget_types() + error_types() + [
                      decreases='batches@.len()'),
          },
          canaries=['C03:a_merge_value_is_null_a_mapping_or_a_sequence_anything_else_is_rejected']),
-    dict(src=D, path='fn collect_entries_from_map', props=['C03', 'C01'],
-         rewrites=[(r'\b\w+\.reserve\([^;]*\);', '', None, 'R36')],   # R36: Vec::reserve only changes capacity
+    dict(src=D, path='fn collect_entries_from_map', props=['C03', 'C16', 'C01'],
+         rewrites=[(r'\b\w+\.reserve\([^;]*\);', '', None, 'R36'),   # R36: Vec::reserve only changes capacity
+                   # the use site handed to the expansion of a nested merge value is bound to a name (R18), so that it can be spoken about
+                   (r'merges\.push\(pending_entries_from_live_events\(ev, ([^()]*(?:\([^()]*\))?[^()]*)\)\?\);',
+                    r'{ let ghost __s_m = ev.rest(); let ghost __uso_m = ev.use_site_override(); let __use_site = \1; merges.push(pending_entries_from_live_events(ev, __use_site)?); }', 1, 'R18')],
          requires=[('stream_below_2g_events', 'old(ev).rest().len() <= i32::MAX')],
          decreases='old(ev).rest().len(), 0int',
          proofs=[
@@ -339,6 +342,8 @@ ITEMS = location_types() + budget_types() + error_types() + [
              dict(after='let key = capture_node(ev)?;', text='lemma_knode_bounds(s1, 0);'),
              dict(before='let value = capture_node(ev)?;', ghost=True, text='let ghost s2 = ev.rest();'),
              dict(after='let value = capture_node(ev)?;', text='lemma_knode_bounds(s2, 0);'),
+             dict(before='merges.push(pending_entries_from_live_events(ev, __use_site)?);', label='C16:the_use_site_of_a_merge_nested_in_a_merged_mapping_is_the_alias_or_merge_entry_that_stands_for_it_not_the_definition', props=['C16'],
+                  text='assert(__s_m.len() > 0 ==> __use_site == spec_use_site(__uso_m, __s_m[0]));'),
              dict(before='let mut entries = fields;', ghost=True, text='let ghost f0 = abs_entries(fields@); let ghost b0 = merges@;'),
              dict(before='entries.append(&mut nested);', ghost=True, text='let ghost e_before = entries@; let ghost n0 = nested@;'),
              dict(after='entries.append(&mut nested);', text='lemma_abs_entries_append(e_before, n0); lemma_pending_ok_append(e_before, n0);'),
